@@ -8,6 +8,7 @@ import (
 	"github.com/consensys/gnark/constraint/solver"
 	"github.com/consensys/gnark/frontend"
 	"github.com/consensys/gnark/std/lookup/logderivlookup"
+	"github.com/consensys/gnark/std/math/emulated"
 	"github.com/consensys/gnark/std/rangecheck"
 	"verifsim/simrt"
 )
@@ -57,6 +58,8 @@ type Prog struct {
 	Outs    []int // value indices exposed as public outputs
 	Commits [][]int // each: value indices committed together
 	Feat    GenFeat
+	NUnused int  // extra secret inputs used by no constraint, queried through the wire-constraint interface (scs only)
+	Emul    bool // one emulated (secp256k1 base field) multiplication on elements built from bits of two values
 }
 
 // GenFeat limits what the generator may emit.
@@ -69,6 +72,8 @@ type GenFeat struct {
 	MaxOps   int
 	MinOps   int
 	Bits     bool
+	WireQuery bool
+	Emulated  bool
 }
 
 func (p *Prog) String() string {
@@ -77,7 +82,7 @@ func (p *Prog) String() string {
 	for _, o := range p.Ops {
 		fmt.Fprintf(&sb, "%s(%d,%d,%d;%d) ", opNames[o.Kind], o.A, o.B, o.C, o.K)
 	}
-	fmt.Fprintf(&sb, "outs=%v commits=%v", p.Outs, p.Commits)
+	fmt.Fprintf(&sb, "outs=%v commits=%v unused=%d emul=%v", p.Outs, p.Commits, p.NUnused, p.Emul)
 	return sb.String()
 }
 
@@ -105,6 +110,12 @@ func (p *Prog) Kinds() string {
 	}
 	if len(p.Commits) > 0 {
 		l = append(l, fmt.Sprintf("commit%d", len(p.Commits)))
+	}
+	if p.NUnused > 0 {
+		l = append(l, fmt.Sprintf("wirequery%d", p.NUnused))
+	}
+	if p.Emul {
+		l = append(l, "emulated")
 	}
 	return strings.Join(l, "+")
 }
@@ -200,6 +211,12 @@ func GenProg(tape *simrt.Tape, q *big.Int, feat GenFeat) (*Prog, []*big.Int) {
 	p.Outs = append(p.Outs, len(vals)-1)
 	for i := 1; i < nout; i++ {
 		p.Outs = append(p.Outs, ch(len(vals)))
+	}
+	if feat.WireQuery {
+		p.NUnused = 2 + ch(6)
+	}
+	if feat.Emulated && q.BitLen() > 128 {
+		p.Emul = ch(2) == 0
 	}
 	if feat.Commit {
 		nc := ch(3)
@@ -331,12 +348,18 @@ func evalOp(o Op, v []*big.Int, q *big.Int) *big.Int {
 type GC struct {
 	P    []frontend.Variable `gnark:",public"`
 	S    []frontend.Variable
+	U    []frontend.Variable // inputs no constraint uses (wire-constraint query workload)
 	prog *Prog
+}
+
+type wireQuerier interface {
+	GetWireConstraints(wires []frontend.Variable, addMissing bool) ([][2]int, error)
+	GetWiresConstraintExact(wires []frontend.Variable, addMissing bool) ([][2]int, error)
 }
 
 // NewGC allocates a circuit (template or assignment) for prog.
 func NewGC(p *Prog) *GC {
-	return &GC{P: make([]frontend.Variable, p.NPubIn+len(p.Outs)), S: make([]frontend.Variable, p.NIn-p.NPubIn), prog: p}
+	return &GC{P: make([]frontend.Variable, p.NPubIn+len(p.Outs)), S: make([]frontend.Variable, p.NIn-p.NPubIn), U: make([]frontend.Variable, p.NUnused), prog: p}
 }
 
 func (c *GC) Define(api frontend.API) error {
@@ -440,6 +463,41 @@ func (c *GC) Define(api frontend.API) error {
 	for i, idx := range p.Outs {
 		api.AssertIsEqual(c.P[p.NPubIn+i], v[idx])
 	}
+	if p.Emul {
+		f, err := emulated.NewField[emulated.Secp256k1Fp](api)
+		if err != nil {
+			return err
+		}
+		a := f.FromBits(toBits(0)[:64]...)
+		b := f.FromBits(toBits(len(v) - 1)[:64]...)
+		f.AssertIsEqual(f.Mul(a, b), f.Mul(b, a))
+	}
+	if p.NUnused > 0 {
+		wq, ok := api.Compiler().(wireQuerier)
+		if !ok {
+			return fmt.Errorf("builder has no wire-constraint query interface")
+		}
+		h := p.NUnused / 2
+		// first half plus two wires that already appear in constraints
+		q1 := append([]frontend.Variable{}, c.U[:h]...)
+		if len(c.S) > 0 {
+			q1 = append(q1, c.S[0])
+		}
+		pos, err := wq.GetWireConstraints(q1, true)
+		if err != nil {
+			return err
+		}
+		if len(pos) != len(q1) {
+			return fmt.Errorf("GetWireConstraints returned %d positions for %d wires", len(pos), len(q1))
+		}
+		pos2, err := wq.GetWiresConstraintExact(c.U[h:], true)
+		if err != nil {
+			return err
+		}
+		if len(pos2) != len(c.U[h:]) {
+			return fmt.Errorf("GetWiresConstraintExact returned %d positions for %d wires", len(pos2), len(c.U[h:]))
+		}
+	}
 	if len(p.Commits) > 0 {
 		cm, ok := api.(frontend.Committer)
 		if !ok {
@@ -486,6 +544,9 @@ func (p *Prog) Assign(in []*big.Int, q *big.Int, breakOut int) *GC {
 	}
 	for i := p.NPubIn; i < p.NIn; i++ {
 		a.S[i-p.NPubIn] = new(big.Int).Set(in[i])
+	}
+	for i := range a.U {
+		a.U[i] = big.NewInt(int64(7 + i))
 	}
 	for i, idx := range p.Outs {
 		x := new(big.Int).Set(v[idx])
